@@ -86,6 +86,12 @@ def formula_worker(job):
     A = [eta.t > 0]
 
     def ob(label, a, b, fp):
+        if is_nan(a):
+            # nothing (NaN) was written where the documented value is expected
+            D.STATS.obligations += 1
+            viol.append({"fingerprint": fp, "detail": {"what": label + " (NaN written)"},
+                         "replay": {"kind": "formula", "ctrl": kind, "vector": vec, "led": job.get("led"), "values": {}}})
+            return
         r, m, how = D.check(A, _t(a) == b, sample=label, timeout_ms=8000)
         if r == 'sat':
             viol.append({"fingerprint": fp, "detail": {"what": label},
@@ -172,7 +178,7 @@ def replay_formula(rs):
         c.control_step(mn)
         for ip, ig in pairs:
             want = pw.load.at[ip, "p_mw"] * pw.load.at[ip, "scaling"] * eta * 1e3 / (hhv * 3600)
-            if abs(gn.source.at[ig, "mdot_kg_per_s"] - want) > 1e-12 * (1 + abs(want)):
+            if not abs(gn.source.at[ig, "mdot_kg_per_s"] - want) <= 1e-12 * (1 + abs(want)):
                 bad.append("source %d: %r vs %r" % (ig, gn.source.at[ig, "mdot_kg_per_s"], want))
     elif kind == "g2p":
         gn = gases[0]
@@ -183,7 +189,7 @@ def replay_formula(rs):
             c.control_step(mn)
             for ip, ig in pairs:
                 want = gn.sink.at[ig, "mdot_kg_per_s"] * gn.sink.at[ig, "scaling"] * hhv * 3600 / 1e3 * eta
-                if abs(pw.sgen.at[ip, "p_mw"] - want) > 1e-12 * (1 + abs(want)):
+                if not abs(pw.sgen.at[ip, "p_mw"] - want) <= 1e-12 * (1 + abs(want)):
                     bad.append("sgen %d: %r vs %r" % (ip, pw.sgen.at[ip, "p_mw"], want))
         else:
             pw.sgen["p_mw"] = [1.0, 2.0, 3.0]
@@ -192,7 +198,7 @@ def replay_formula(rs):
             c.control_step(mn)
             for ip, ig in pairs:
                 want = pw.sgen.at[ip, "p_mw"] * pw.sgen.at[ip, "scaling"] / (hhv * 3600 / 1e3 * eta)
-                if abs(gn.sink.at[ig, "mdot_kg_per_s"] - want) > 1e-12 * (1 + abs(want)):
+                if not abs(gn.sink.at[ig, "mdot_kg_per_s"] - want) <= 1e-12 * (1 + abs(want)):
                     bad.append("sink %d: %r vs %r" % (ig, gn.sink.at[ig, "mdot_kg_per_s"], want))
     else:
         g1, g2 = gases
@@ -202,7 +208,7 @@ def replay_formula(rs):
         c.control_step(mn)
         for i1, i2 in pairs:
             want = g1.sink.at[i1, "mdot_kg_per_s"] * g1.sink.at[i1, "scaling"] * h1 / h2 * eta
-            if abs(g2.source.at[i2, "mdot_kg_per_s"] - want) > 1e-12 * (1 + abs(want)):
+            if not abs(g2.source.at[i2, "mdot_kg_per_s"] - want) <= 1e-12 * (1 + abs(want)):
                 bad.append("source %d: %r vs %r" % (i2, g2.source.at[i2, "mdot_kg_per_s"], want))
     return bool(bad), {"bad": bad}
 
@@ -398,7 +404,7 @@ def coupled_g2g_worker(job):
     patched, ass = H.install(numba_pyfunc=False)
     viol = []
     eta, h1, h2 = real("eta"), real("hhv1"), real("hhv2")
-    A = list(ass) + [eta.t > 0, h1.t > 0, h2.t > 0]
+    A = list(ass) + [eta.t > 0, h1.t > 0, h2.t > 0, z3.Real("eta2") > 0, z3.Real("hhv0") > 0]
     i1, i2 = job["idx_from"], job["idx_to"]
 
     def sym_gas(gn, tag):
@@ -420,6 +426,13 @@ def coupled_g2g_worker(job):
         sym_gas(g2, "gas1")
         c = mc.GasToGasConversion(mn, i1, i2, eta, name_gas_net_from="gas0", name_gas_net_to="gas1")
         c.gas1_calorific_value, c.gas2_calorific_value = h1, h2
+        if job.get("second_coupling"):
+            # a second coupling controller in the same level that couples another pair of nets (power -> gas0) and comes
+            # last: the target net of the first one must still be re-calculated
+            _symcol(pw.load, "p_mw", "load.p_mw")
+            _symcol(pw.load, "scaling", "load.scaling")
+            c2 = mc.P2GControlMultiEnergy(mn, 0, 0, real("eta2"), name_power_net="power", name_gas_net="gas0")
+            c2.fluid_calorific_value = real("hhv0")
         cv = rcm.prepare_run_ctrl(mn, None)
         cv["nets"]["power"]["run"] = fake_runpp
         rcm.run_control(mn, ctrl_variables=cv, mode="hydraulics", use_numba=False)
@@ -439,7 +452,8 @@ def coupled_g2g_worker(job):
             except KeyError:
                 col = name.split("[")[0].split(".")[-1]
                 v = {"pn_bar": 30.0, "tfluid_k": 283.15, "p_bar": 30.0, "t_k": 283.15, "length_km": 1.5, "inner_diameter_mm": 300.0,
-                     "k_mm": 0.1, "mdot_kg_per_s": 0.12, "scaling": 1.0, "eta": 0.7, "hhv1": 11.0, "hhv2": 13.0}.get(col, 1.0)
+                     "k_mm": 0.1, "mdot_kg_per_s": 0.12, "scaling": 1.0, "eta": 0.7, "hhv1": 11.0, "hhv2": 13.0, "eta2": 0.6,
+                     "hhv0": 11.0, "p_mw": 2.0}.get(col, 1.0)
                 self[name] = v
                 return v
     H.CTX.fixed = set()
@@ -468,7 +482,8 @@ def coupled_g2g_worker(job):
     mine = [s_ for s_ in same_unknowns if any(v.startswith("gas1.") for b_ in s_["b"] if isinstance(b_, Sym) for v in free_vars(b_.t))]
     if not mine:
         viol.append({"fingerprint": "C20/coupled_g2g/not_calculated", "detail": {"what": "no system was assembled for the target net"},
-                     "replay": {"kind": "coupled_g2g", "idx_from": i1, "idx_to": i2, "values": {}}})
+                     "replay": {"kind": "coupled_g2g", "idx_from": i1, "idx_to": i2, "second_coupling": bool(job.get("second_coupling")),
+                                "values": {}}})
     else:
         so, se = equiv.system_obligations(mine[-1], sys_b, "target net system")
         cells_ += so
@@ -484,7 +499,8 @@ def coupled_g2g_worker(job):
                                 witness=(pa.witness, H.witness_funcs()))
         if r == 'sat':
             viol.append({"fingerprint": "C20/coupled_g2g/%s" % lab.split("[")[0], "detail": {"what": lab},
-                         "replay": {"kind": "coupled_g2g", "idx_from": i1, "idx_to": i2, "values": {}}})
+                         "replay": {"kind": "coupled_g2g", "idx_from": i1, "idx_to": i2, "second_coupling": bool(job.get("second_coupling")),
+                                    "values": {}}})
             if len(viol) >= 3:
                 break
         elif r == 'unknown':
@@ -502,6 +518,8 @@ def replay_coupled_g2g(rs):
     mn, pw, (g1, g2) = _multinet(2)
     g1.sink["scaling"] = [0.5, 0.8, 1.5]
     mc.GasToGasConversion(mn, i1, i2, eta, name_gas_net_from="gas0", name_gas_net_to="gas1")
+    if rs.get("second_coupling"):
+        mc.P2GControlMultiEnergy(mn, 0, 0, 0.6, name_power_net="power", name_gas_net="gas0")
     rcm.run_control(mn)
     mnb, pwb, (b1, b2) = _multinet(2)
     hh1 = float(np.asarray(b1.fluid.get_property("hhv")).ravel()[0])
@@ -609,6 +627,7 @@ def jobs(tier, seed):
     out.append({"name": "coupled/scalar", "kind": "coupled", "idx_p": 1, "idx_g": 2})
     out.append({"name": "coupled/vector", "kind": "coupled", "idx_p": [0, 2], "idx_g": [1, 2]})
     out.append({"name": "coupled_g2g/scalar", "kind": "coupled_g2g", "idx_from": 1, "idx_to": 2})
+    out.append({"name": "coupled_g2g/two_couplings", "kind": "coupled_g2g", "idx_from": 1, "idx_to": 2, "second_coupling": True})
     out.append({"name": "flag", "kind": "flag"})
     return out
 
